@@ -172,6 +172,16 @@ def gen_single(seed, tier, focus):
                            ch.randrange("faults", ("srv", j), cfg["nservers"]),
                            ch.pick("faults", ("meth", j), ["slot_testv_and_readv_and_writev", "slot_testv_and_readv_and_writev", "slot_readv"]),
                            ch.randint("faults", ("nth", j), 1, 6), ch.pick("faults", ("secs", j), [1.0, 30.0])])
+    if focus == "C47" and ch.chance("faults", "dup-layout", 0.35):
+        # a share number that sits on two servers (its holder was away during a publish, the share was re-homed, the old
+        # holder came back), and several servers whose writes fail from some point on: the writers that survive may then
+        # be many while the distinct share numbers they cover are few
+        at = ch.randint("faults", "dup-at", 1, len(ops))
+        ndup = ch.randint("faults", "ndup", 1, max(1, cfg["n"] - 1))
+        ops.insert(at, ["dup", [[ch.randrange("faults", ("dup-a", j), cfg["n"]), ch.randrange("faults", ("dup-b", j), cfg["n"])] for j in range(ndup)]])
+        ops.insert(at + 1, ["overwrite", ch.pick(W, "dup-osize", sz), ch.randint(W, "dup-opat", 1, 1 << 30)])
+        for j, srv in enumerate(ch.sample("faults", "broken", range(cfg["nservers"]), ch.randint("faults", "nbroken", 1, max(1, cfg["nservers"] - 1)))):
+            faults.append(["error", srv, "slot_testv_and_readv_and_writev", ch.randint("faults", ("broken-from", j), 2, 4), 1.0, True])
     return {"engine": "mutsim", "profile": "single", "focus": focus, "seed": seed, "cfg": cfg, "ops": ops, "faults": faults}
 
 
@@ -273,9 +283,10 @@ def exec_single(case):
         last_seq = 0
         version_images = {}
         for fl in case.get("faults", []):
-            kind, srv, meth, nth, secs = fl
+            kind, srv, meth, nth, secs = fl[:5]
             if srv < len(g.servers):
-                g.net.add_fault({"kind": kind, "callee": g.servers[srv].name, "caller": w.sim_name, "method": meth, "nth": nth, "secs": secs})
+                g.net.add_fault({"kind": kind, "callee": g.servers[srv].name, "caller": w.sim_name, "method": meth, "nth": nth, "secs": secs,
+                                 "every": bool(len(fl) > 5 and fl[5])})
 
         def drive(d, what):
             try:
@@ -400,6 +411,16 @@ def exec_single(case):
                 continue
             if node is None:
                 break
+            if kind == "dup":
+                for (a_, b_) in op[1]:
+                    holders_a = [s_ for s_ in g.servers if a_ in s_.shares_of(si)]
+                    holders_b = [s_ for s_ in g.servers if b_ in s_.shares_of(si) and a_ not in s_.shares_of(si)]
+                    if a_ != b_ and holders_a and holders_b:
+                        tgt = holders_b[0]
+                        with open(tgt.share_path(si, a_), "wb") as f:
+                            f.write(dup_image_for_server(tgt.shares_of(si)[b_], holders_a[0].shares_of(si)[a_]))
+                        probe("share-number-duplicated")
+                continue
             if isinstance(model, tuple) and kind in ("modify", "update", "readrange"):
                 # resolve the ambiguity left by a failed write before building on it
                 st, res = drive(rd.create_node_from_uri(cap).download_best_version(), "read")
